@@ -55,6 +55,7 @@ func replayDriveOne(cfg Config, v *Violation) int {
 	defer f.Close()
 	w := &driveWorld{sy: NewSymb(), rng: rand.New(rand.NewSource(int64(cfg.Seed)*100003 + int64(line.Step.N))), out: json.NewEncoder(f),
 		h: line.Step.N, live: map[int]bool{}, held: map[int]bool{}}
+	w.remHigh = optVal(v.X, "remhigh", "") == "1"
 	if optVal(v.X, "big", "") == "1" {
 		w.lcBroken = true
 		w.runBig(maxN)
@@ -133,6 +134,7 @@ type driveWorld struct {
 	lcLossy    bool         // the last undo was of a block with a non-empty ToDestroy
 	held       map[int]bool // what the light client was asked to hold (bookkeeping of the requests made)
 	nmut       int
+	remHigh    bool           // light client remembers 2/3 of the additions (mid-size histories)
 	sparseTall bool           // sparse scenario with a 12-row subtree: TLC judges the roots only
 	script     *scriptedBlock // scripted scenarios (sparse tall forests): the next block
 }
@@ -182,6 +184,7 @@ func runDrive(cfg Config, in io.Reader, extra string, workers int) int {
 			continue
 		}
 		w := &driveWorld{sy: sy, rng: rand.New(rand.NewSource(int64(cfg.Seed)*100003 + int64(h))), out: enc, h: h, live: map[int]bool{}, held: map[int]bool{}}
+		w.remHigh = optVal(extra, "remhigh", "") == "1"
 		if optVal(extra, "big", "") == "1" {
 			w.lcBroken = true // no light client in the large histories
 			w.runBig(maxN)
@@ -479,7 +482,11 @@ func (w *driveWorld) block(maxN int) {
 	var rem []uint32
 	remSlots := []int{}
 	for i := 0; i < k; i++ {
-		if w.rng.Intn(3) == 0 {
+		take := w.rng.Intn(3) == 0
+		if w.remHigh {
+			take = !take // the light client remembers two additions out of three
+		}
+		if take {
 			rem = append(rem, uint32(i))
 			remSlots = append(remSlots, int(w.n)+i)
 		}
